@@ -158,6 +158,15 @@ func (i *initialStatus) process() (*initialStatusResult, error) {
 	// note: we don't need to check individual fields of the certificate
 	// because CertificateID is a hash of all the fields
 	if localLastCert.CertificateID != aggLayerLastCert.CertificateID {
+		// CASE 4.1: aggsender stopped between sending the retry of an InError certificate
+		// (same height, new ID, not created before the local one) to agglayer and storing it
+		// to the local storage
+		if localLastCert.Status.IsInError() && isCreatedAtOrAfter(aggLayerLastCert, localLastCert.CreatedAt) {
+			return &initialStatusResult{action: InitialStatusActionInsertNewCert,
+				message: fmt.Sprintf("agglayer have the retry of the local InError cert, storing cert: %s",
+					aggLayerLastCert.ID()),
+				cert: aggLayerLastCert}, nil
+		}
 		return nil, fmt.Errorf("recovery: Local certificate:\n %s \n is different from agglayer certificate:\n %s",
 			localLastCert.String(), aggLayerLastCert.String())
 	}
@@ -199,6 +208,13 @@ func (i *initialStatus) checkAgglayerConsistenceCerts() error {
 	}
 
 	return nil
+}
+
+// isCreatedAtOrAfter returns true if the creation time carried by the agglayer certificate metadata
+// (version >= 1) is not before the given one
+func isCreatedAtOrAfter(cert *agglayertypes.CertificateHeader, createdAt uint32) bool {
+	meta, err := types.NewCertificateMetadataFromHash(cert.Metadata)
+	return err == nil && meta.Version >= types.CertificateMetadataV1 && meta.CreatedAt >= createdAt
 }
 
 func (i *initialStatus) getLatestAggLayerCert() *agglayertypes.CertificateHeader {
